@@ -19,7 +19,7 @@ type seedPair struct {
 }
 
 func runC04(c *Ctx) {
-	c.res.Rule = "MnemonicToSeed on: all (m,p) in Sigma^<=2 x Sigma^<=1 and Sigma^<=1 x Sigma^<=2 (thorough: Sigma^<=2 x Sigma^<=2) over a 16-letter Unicode probe alphabet (precomposed/decomposed, full-width, long compatibility expansions, half-width kana + voiced mark, reordering marks, Hangul, ligature, 18-char expansion, astral); Sigma^<=3 for one argument with the other fixed; byte-length ladders 0..300 of 'a', U+00E9 and U+3042 runs for each argument (HMAC block / SHA-512 padding boundaries) and lengths around 512 B, 1 KiB, 4 KiB, 64 KiB; every assigned code point whose NFKD differs from itself (5795 non-Hangul; Hangul syllables: all in thorough, every 97th in quick) alone as passphrase and (quick: every second) as mnemonic; combining-mark run probes a+U+0301 x k; valid sentences of all ten languages with stray leading/trailing/doubled white space and changed case; sequential call triples whose arguments concatenate to the same text. Oracle: byte equality with a hand-written PBKDF2-HMAC-SHA512 over CPython-NFKD forms, length 64, fresh slice on every call. distinct_nontrivial = distinct (mnemonic, passphrase) pairs"
+	c.res.Rule = "MnemonicToSeed on: all (m,p) in Sigma^<=2 x Sigma^<=1 and Sigma^<=1 x Sigma^<=2 (thorough: Sigma^<=2 x Sigma^<=2) over a 16-letter Unicode probe alphabet (precomposed/decomposed, full-width, long compatibility expansions, half-width kana + voiced mark, reordering marks, Hangul, ligature, 18-char expansion, astral); Sigma^<=3 for one argument with the other fixed; byte-length ladders 0..300 of 'a', U+00E9 and U+3042 runs for each argument (HMAC block / SHA-512 padding boundaries) and lengths around 512 B, 1 KiB, 4 KiB, 64 KiB; every assigned code point whose NFKD differs from itself (5795 non-Hangul; Hangul syllables: all in thorough, every 97th in quick) alone as passphrase and (quick: every second) as mnemonic; combining-mark run probes a+U+0301 x k; valid sentences of all ten languages with stray leading/trailing/doubled white space and changed case; 19 white-space/control/invisible characters (TAB, LF, CR, CRLF, VT, FF, NUL, ESC, DEL, NEL, NBSP, LS, PS, U+3000, ZWSP, ZWJ, BOM, SHY) before, after, around, doubled after and between four cores in either argument; sequential call triples whose arguments concatenate to the same text. Oracle: byte equality with a hand-written PBKDF2-HMAC-SHA512 over CPython-NFKD forms, length 64, fresh slice on every call. distinct_nontrivial = distinct (mnemonic, passphrase) pairs"
 	c.Assume("CPython unicodedata (Unicode 14) NFKD is the standard NFKD for the assigned code points used", "hand-written PBKDF2 cross-checked against OpenSSL via hashlib on every run")
 
 	var pairs []seedPair
@@ -85,6 +85,15 @@ func runC04(c *Ctx) {
 			pairs = append(pairs, seedPair{w, "", false, "valid-sentence-with-stray-space"})
 		}
 		pairs = append(pairs, seedPair{v, " ", false, "valid-sentence-with-stray-space"}, seedPair{v, "", true, "valid-sentence"})
+	}
+	// white-space, control and invisible characters at the edges and inside either argument: nothing
+	// is trimmed, collapsed or cut at a line end
+	for _, x := range []string{" ", "\t", "\n", "\r", "\r\n", "\v", "\f", "\x00", "\x1b", "\x7f", "\u0085", "\u00a0", "\u2028", "\u2029", "\u3000", "\u200b", "\u200d", "\ufeff", "\u00ad"} {
+		for _, core := range []string{"", "TREZOR", "p\u00e4ss w\u00f6rd", c.M.Encode(make([]byte, 16), 2)} {
+			for _, w := range []string{x + core, core + x, x + core + x, core + x + x, core + x + core} {
+				pairs = append(pairs, seedPair{"abandon ability", w, false, "edge-character-passphrase"}, seedPair{w, "TREZOR", false, "edge-character-mnemonic"})
+			}
+		}
 	}
 	// every assigned code point that NFKD changes, alone, as either argument
 	dec := c.decompSlice()
